@@ -10,6 +10,8 @@ group=$1; race=${2:-}
 . /verif/scripts/env.sh
 H=/verif/harness
 G=$H/t/$group
+# a group may reuse the sources of another group (e.g. the -race variant of the same monitor)
+[ -f "$G/SRC" ] && G=$H/t/$(cat "$G/SRC")
 [ -f "$G/PKG" ] || { echo "build.sh: unknown group $group" >&2; exit 2; }
 pkg=$(cat "$G/PKG")
 B=/verif/build/$group${race:+.race}
@@ -34,7 +36,7 @@ cp /repo/go.sum "$B/go.sum"
     p=$(sed -n 's#^// verif-hook: *\(.*\)$#\1#p' "$f" | head -1)
     [ -n "$p" ] && emit "/repo/$p/zz_verif_hook_$(basename "$f")" "$f"
   done
-  for f in "$G"/*.go; do [ -f "$f" ] && emit "/repo/$pkg/zz_verif_${group}_$(basename "$f")" "$f"; done
+  for f in "$G"/*.go; do [ -f "$f" ] && emit "/repo/$pkg/zz_verif_$(basename "$G")_$(basename "$f")" "$f"; done
   echo; echo '}}'
 } > "$B/overlay.json"
 out=/verif/bin/$group${race:+.race}.test
